@@ -197,8 +197,23 @@ def rr(inst, **kw):
     return out, objs(pr), pr_failed, pr
 
 
-def compare(c, family, case, a, b, la="A", lb="B", tol=1e-6):
-    """a, b = (outcome, objective values, failed_lp) of the two sides"""
+def same_solution(ra, rb, tol=1e-6):
+    """trajectories of two runs at one priority agree (all members, all model variables)"""
+    for ma, mb in zip(ra, rb):
+        for v in S.VARS:
+            xa, xb = np.asarray(ma[v], dtype=float), np.asarray(mb[v], dtype=float)
+            if xa.shape != xb.shape or not np.all(np.abs(xa - xb) <= tol * (1.0 + np.abs(xa))):
+                return False
+    return True
+
+
+def compare(c, family, case, a, b, la="A", lb="B", tol=1e-6, path_dependent=None):
+    """a, b = (outcome, objective values, failed_lp) of the two sides.
+    `path_dependent` = (caps_a, caps_b) for multi-pass runs WITHOUT keep_soft_constraints: there the
+    constraints retained from a priority are built from the particular minimiser found (achieved epsilons /
+    function values per time step), so equal optima at later priorities are implied by the equivalence of
+    the formulations only as long as both sides found the same minimiser at every earlier priority; the
+    comparison stops (counted) at the first priority where a non-unique optimum was resolved differently."""
     (oa, va, fa), (ob, vb, fb) = a, b
     c.hit("pairs/" + family)
     for side, o in ((la, oa), (lb, ob)):
@@ -207,6 +222,11 @@ def compare(c, family, case, a, b, la="A", lb="B", tol=1e-6):
             return False
     n = min(len(va), len(vb))
     for k in range(n):
+        if path_dependent is not None and k > 0:
+            ca_, cb_ = path_dependent
+            if not same_solution(ca_[k - 1]["results"], cb_[k - 1]["results"]):
+                c.hit("pairs/" + family + "/later priorities not comparable: earlier optimum not unique")
+                return True
         if not abs(va[k] - vb[k]) <= tol * (1.0 + abs(va[k])):
             c.fail("%s: objective values of priority index %d differ" % (family, k), case, {la: va, lb: vb})
             return False
@@ -481,7 +501,8 @@ def pairs_minabs_relaxed(c, n):
         c.hit("min-abs relaxed/nominal=%g" % nom)
         c.hit("min-abs relaxed/relaxation=%g" % r)
         case = {"min_abs": brief(a_inst), "two_sided": brief(b_inst)}
-        compare(c, "min-abs-relaxed-vs-two-sided", case, a[:3], b[:3], "min_abs", "two_sided")
+        compare(c, "min-abs-relaxed-vs-two-sided", case, a[:3], b[:3], "min_abs", "two_sided",
+                path_dependent=(a[3].cap, b[3].cap))
         # attainment oracle (plain statement of the documented retained constraint, physical units)
         pr = a[3]
         if not isinstance(a[0], tuple) and len(pr.cap) > 1:
@@ -533,7 +554,8 @@ def pairs_map_modes(c, n):
                 c.hit("pairs/map-modes/openmp-not-available")
                 continue
             c.count(("map", inst["mode"], tuple(variant.items()), tuple(round(v, 6) for v in a[1])))
-            compare(c, "map-modes-expand", {"inst": brief(inst), "variant": variant}, a[:3], b[:3], "unroll", str(variant))
+            compare(c, "map-modes-expand", {"inst": brief(inst), "variant": variant}, a[:3], b[:3], "unroll", str(variant),
+                    path_dependent=(a[3].cap, b[3].cap) if inst["mode"] == "default" else None)
         c.programs += 4
 
 
@@ -559,9 +581,14 @@ def pairs_resolve(c, n):
             first = (out[0], [cap["obj"] for cap in pr.first_cap], None)
         c.count(("resolve", inst["mode"], bool(inst.get("minabs")), bool(inst.get("caching_qpsol")),
                  tuple(round(v, 6) for v in fresh[1])))
-        compare(c, "second-optimize-vs-fresh", {"inst": brief(inst)}, fresh[:3], second, "fresh", "second optimize()")
+        pd = None
+        if inst["mode"] == "default" and not (isinstance(out, tuple) and out[0] == "raise"):
+            pd = (fresh[3].cap, pr.cap)
+        compare(c, "second-optimize-vs-fresh", {"inst": brief(inst)}, fresh[:3], second, "fresh", "second optimize()",
+                path_dependent=pd)
         if first is not None and first[0] is True and fresh[0] is True:
-            compare(c, "first-optimize-vs-fresh", {"inst": brief(inst)}, fresh[:3], first, "fresh", "first optimize()")
+            compare(c, "first-optimize-vs-fresh", {"inst": brief(inst)}, fresh[:3], first, "fresh", "first optimize()",
+                    path_dependent=(fresh[3].cap, pr.first_cap) if inst["mode"] == "default" else None)
         c.programs += 2
 
 
